@@ -672,3 +672,309 @@ Proof.
   assert (ki = kj) by congruence. subst kj.
   exists ki. split; [congruence|]. split; congruence.
 Qed.
+
+(** * 3. Nothing but the targets changes *)
+Lemma graft_list_skeleton : forall path l,
+  Forall (fun e => forall rs e' rest, graft path e rs = Some (e', rest) -> skeleton path e' = skeleton path e) l ->
+  forall rs l' rest, graft_list (graft path) l rs = Some (l', rest) ->
+                     map (skeleton path) l' = map (skeleton path) l.
+Proof.
+  intros path l H. induction H as [|e t He _ IH]; intros rs l' rest Hg; simpl in Hg.
+  - inversion Hg; reflexivity.
+  - destruct (graft path e rs) as [[e' r1]|] eqn:E1; [|discriminate].
+    destruct (graft_list (graft path) t r1) as [[t' r2]|] eqn:E2; [|discriminate].
+    inversion Hg; subst. simpl. rewrite (He _ _ _ E1), (IH _ _ _ E2). reflexivity.
+Qed.
+
+Theorem graft_skeleton : forall path node rs node' rest,
+  graft path node rs = Some (node', rest) -> skeleton path node' = skeleton path node.
+Proof.
+  induction path as [|[name|t] restp IHp]; intros node.
+  - induction node using json_ind'; intros rs node' rest Hg;
+      try (rewrite graft_atom in Hg by reflexivity; inversion Hg; reflexivity).
+    + rewrite graft_arr in Hg. destruct (graft_list (graft []) l rs) as [[l' rs']|] eqn:E; [|discriminate].
+      inversion Hg; subst. rewrite !skeleton_arr. f_equal. eapply graft_list_skeleton; eauto.
+    + destruct (graft_obj_keeps _ _ _ _ _ Hg) as [kvs' [-> _]]. reflexivity.
+  - induction node using json_ind'; intros rs node' rest Hg;
+      try (rewrite graft_atom in Hg by reflexivity; inversion Hg; reflexivity).
+    + rewrite graft_arr in Hg.
+      destruct (graft_list (graft (SField name :: restp)) l rs) as [[l' rs']|] eqn:E; [|discriminate].
+      inversion Hg; subst. rewrite !skeleton_arr. f_equal. eapply graft_list_skeleton; eauto.
+    + rewrite graft_field_obj in Hg. destruct (lookup name l) as [next|] eqn:El; [|discriminate].
+      destruct (graft restp next rs) as [[next' rs']|] eqn:E; [|discriminate]. inversion Hg; subst.
+      rewrite !skeleton_field_obj, El, lookup_set_key_same by congruence.
+      rewrite set_key_twice, (IHp _ _ _ _ E). reflexivity.
+  - induction node using json_ind'; intros rs node' rest Hg;
+      try (rewrite graft_atom in Hg by reflexivity; inversion Hg; reflexivity).
+    + rewrite graft_arr in Hg.
+      destruct (graft_list (graft (SType t :: restp)) l rs) as [[l' rs']|] eqn:E; [|discriminate].
+      inversion Hg; subst. rewrite !skeleton_arr. f_equal. eapply graft_list_skeleton; eauto.
+    + rewrite graft_type_obj in Hg.
+      destruct (lookup "__typename" l) as [[| | |s| |]|] eqn:El; try discriminate.
+      destruct (String.eqb s t) eqn:Es; [|inversion Hg; reflexivity].
+      destruct (graft_obj_keeps _ _ _ _ _ Hg) as [kvs' [-> Hk]].
+      rewrite !skeleton_type_obj, El, (Hk _ _ El eq_refl), Es. eapply IHp; eauto.
+Qed.
+
+(** * 4. NULLS IN LISTS: null elements of the arrays on the way contribute no key and take no result; with
+    or without them the same targets are met in the same order, and grafting commutes with removing them *)
+Lemma strip_nulls_obj_keeps : forall path kvs,
+  exists kvs', strip_nulls path (JObj kvs) = JObj kvs' /\ keeps_atoms kvs kvs'.
+Proof.
+  induction path as [|[name|t] restp IHp]; intros kvs.
+  - exists kvs. split; [reflexivity | intros k v Hl _; exact Hl].
+  - rewrite strip_nulls_field_obj. destruct (lookup name kvs) as [next|] eqn:El.
+    + eexists. split; [reflexivity|]. intros k v Hl Ha. destruct (String.eqb name k) eqn:Ek.
+      * apply String.eqb_eq in Ek. subst k. rewrite El in Hl. inversion Hl; subst next.
+        rewrite (strip_nulls_atom _ _ Ha). apply lookup_set_key_same. congruence.
+      * apply String.eqb_neq in Ek. rewrite lookup_set_key_other; auto.
+    + exists kvs. split; [reflexivity | intros k v Hl _; exact Hl].
+  - rewrite strip_nulls_type_obj. destruct (lookup "__typename" kvs) as [[| | |s| |]|];
+      try (exists kvs; split; [reflexivity | intros k v Hl _; exact Hl]).
+    destruct (String.eqb s t); [apply IHp | exists kvs; split; [reflexivity | intros k v Hl _; exact Hl]].
+Qed.
+
+Lemma jnull_true : forall e, jnull e = true -> e = JNull.
+Proof. intros e H. destruct e; try discriminate; reflexivity. Qed.
+
+Lemma targets_strip_list : forall path l,
+  Forall (fun e => targets path (strip_nulls path e) = targets path e) l ->
+  flat_map (targets path) (flat_map (fun e => if jnull e then [] else [strip_nulls path e]) l) =
+  flat_map (targets path) l.
+Proof.
+  intros path l H. induction H as [|e t He _ IH]; simpl; [reflexivity|].
+  destruct (jnull e) eqn:En; simpl.
+  - apply jnull_true in En. subst e. rewrite (targets_atom path JNull eq_refl). exact IH.
+  - rewrite He, IH. reflexivity.
+Qed.
+
+Theorem targets_strip_nulls : forall path node, targets path (strip_nulls path node) = targets path node.
+Proof.
+  induction path as [|[name|t] restp IHp]; intros node.
+  - induction node using json_ind'; try reflexivity.
+    rewrite strip_nulls_arr, !targets_arr. apply targets_strip_list; assumption.
+  - induction node using json_ind'; try reflexivity.
+    + rewrite strip_nulls_arr, !targets_arr. apply targets_strip_list; assumption.
+    + rewrite strip_nulls_field_obj. destruct (lookup name l) as [next|] eqn:El; [|reflexivity].
+      rewrite !targets_field_obj, El, lookup_set_key_same by congruence. apply IHp.
+  - induction node using json_ind'; try reflexivity.
+    + rewrite strip_nulls_arr, !targets_arr. apply targets_strip_list; assumption.
+    + rewrite strip_nulls_type_obj. destruct (lookup "__typename" l) as [[| | |s| |]|] eqn:El; try reflexivity.
+      destruct (String.eqb s t) eqn:Es; [|reflexivity].
+      destruct (strip_nulls_obj_keeps restp l) as [kvs' [E Hk]].
+      rewrite targets_type_obj, El, Es. rewrite <- (IHp (JObj l)), E.
+      rewrite targets_type_obj, (Hk _ _ El eq_refl), Es. reflexivity.
+Qed.
+
+Lemma walk_ok_strip_list : forall st path l,
+  Forall (fun e => walk_ok st path (strip_nulls path e) = walk_ok st path e) l ->
+  forallb (walk_ok st path) (flat_map (fun e => if jnull e then [] else [strip_nulls path e]) l) =
+  forallb (walk_ok st path) l.
+Proof.
+  intros st path l H. induction H as [|e t He _ IH]; simpl; [reflexivity|].
+  destruct (jnull e) eqn:En; simpl.
+  - apply jnull_true in En. subst e. rewrite IH.
+    destruct path as [|[name|ty] rest]; reflexivity.
+  - rewrite He, IH. reflexivity.
+Qed.
+
+Theorem walk_ok_strip_nulls : forall st path node,
+  walk_ok st path (strip_nulls path node) = walk_ok st path node.
+Proof.
+  intros st. induction path as [|[name|t] restp IHp]; intros node.
+  - induction node using json_ind'; try reflexivity.
+    rewrite strip_nulls_arr, !walk_ok_arr. apply walk_ok_strip_list; assumption.
+  - induction node using json_ind'; try reflexivity.
+    + rewrite strip_nulls_arr, !walk_ok_arr. apply walk_ok_strip_list; assumption.
+    + rewrite strip_nulls_field_obj. destruct (lookup name l) as [next|] eqn:El; [|reflexivity].
+      rewrite !walk_ok_field_obj, El, lookup_set_key_same by congruence. apply IHp.
+  - induction node using json_ind'; try reflexivity.
+    + rewrite strip_nulls_arr, !walk_ok_arr. apply walk_ok_strip_list; assumption.
+    + rewrite strip_nulls_type_obj. destruct (lookup "__typename" l) as [[| | |s| |]|] eqn:El; try reflexivity.
+      destruct (String.eqb s t) eqn:Es; [|reflexivity].
+      destruct (strip_nulls_obj_keeps restp l) as [kvs' [E Hk]].
+      rewrite walk_ok_type_obj, El, Es. rewrite <- (IHp (JObj l)), E.
+      rewrite walk_ok_type_obj, (Hk _ _ El eq_refl), Es. reflexivity.
+Qed.
+
+Theorem extract_keys_strip_nulls : forall path node,
+  extract_keys true path (strip_nulls path node) = extract_keys true path node.
+Proof.
+  intros path node. rewrite !extract_keys_is_targets, walk_ok_strip_nulls, targets_strip_nulls. reflexivity.
+Qed.
+
+Lemma graft_list_strip : forall path l,
+  Forall (fun e => forall rs, graft path (strip_nulls path e) rs = strip_res path (graft path e rs)) l ->
+  forall rs,
+    graft_list (graft path) (flat_map (fun e => if jnull e then [] else [strip_nulls path e]) l) rs =
+    match graft_list (graft path) l rs with
+    | Some (l', rest) => Some (flat_map (fun e => if jnull e then [] else [strip_nulls path e]) l', rest)
+    | None => None
+    end.
+Proof.
+  intros path l H. induction H as [|e t He _ IH]; intros rs; [reflexivity|].
+  cbn [flat_map]. destruct (jnull e) eqn:En.
+  - apply jnull_true in En. subst e. cbn [app graft_list]. rewrite (graft_atom path JNull rs eq_refl), IH.
+    destruct (graft_list (graft path) t rs) as [[t' r2]|]; reflexivity.
+  - cbn [app graft_list]. rewrite He. destruct (graft path e rs) as [[e' r1]|] eqn:E1; [|reflexivity].
+    cbn [strip_res]. rewrite IH. destruct (graft_list (graft path) t r1) as [[t' r2]|]; [|reflexivity].
+    cbn [flat_map]. rewrite (graft_jnull _ _ _ _ _ E1), En. reflexivity.
+Qed.
+
+Theorem graft_strip_nulls : forall path node rs,
+  graft path (strip_nulls path node) rs = strip_res path (graft path node rs).
+Proof.
+  induction path as [|[name|t] restp IHp]; intros node.
+  - induction node using json_ind'; intros rs; try reflexivity.
+    + rewrite strip_nulls_arr, !graft_arr, (graft_list_strip [] l H rs).
+      destruct (graft_list (graft []) l rs) as [[l' rs']|]; [|reflexivity].
+      unfold strip_res. rewrite strip_nulls_arr. reflexivity.
+    + simpl. destruct rs as [|[| | | | |r] rs']; try reflexivity. destruct (merge_result l r); reflexivity.
+  - induction node using json_ind'; intros rs; try reflexivity.
+    + rewrite strip_nulls_arr, !graft_arr, (graft_list_strip _ l H rs).
+      destruct (graft_list (graft (SField name :: restp)) l rs) as [[l' rs']|]; [|reflexivity].
+      unfold strip_res. rewrite strip_nulls_arr. reflexivity.
+    + rewrite strip_nulls_field_obj. destruct (lookup name l) as [next|] eqn:El.
+      * rewrite !graft_field_obj, El, lookup_set_key_same by congruence. rewrite IHp.
+        destruct (graft restp next rs) as [[next' rs']|]; [|reflexivity].
+        unfold strip_res. rewrite strip_nulls_field_obj, lookup_set_key_same by congruence.
+        rewrite !set_key_twice. reflexivity.
+      * rewrite graft_field_obj, El. reflexivity.
+  - induction node using json_ind'; intros rs; try reflexivity.
+    + rewrite strip_nulls_arr, !graft_arr, (graft_list_strip _ l H rs).
+      destruct (graft_list (graft (SType t :: restp)) l rs) as [[l' rs']|]; [|reflexivity].
+      unfold strip_res. rewrite strip_nulls_arr. reflexivity.
+    + rewrite strip_nulls_type_obj, (graft_type_obj t restp l).
+      destruct (lookup "__typename" l) as [[| | |s| |]|] eqn:El;
+        try (rewrite graft_type_obj, El; reflexivity).
+      destruct (String.eqb s t) eqn:Es.
+      * destruct (strip_nulls_obj_keeps restp l) as [kvs' [E Hk]].
+        rewrite E, graft_type_obj, (Hk _ _ El eq_refl), Es.
+        rewrite <- E, IHp. destruct (graft restp (JObj l) rs) as [[n' rs']|] eqn:Eg; [|reflexivity].
+        destruct (graft_obj_keeps _ _ _ _ _ Eg) as [k2 [-> Hk2]].
+        unfold strip_res. rewrite strip_nulls_type_obj, (Hk2 _ _ El eq_refl), Es. reflexivity.
+      * rewrite graft_type_obj, El, Es. unfold strip_res. rewrite strip_nulls_type_obj, El, Es. reflexivity.
+Qed.
+
+(** inserting a null anywhere in an array on the way changes nothing of the above *)
+Lemma strip_nulls_insert : forall path l1 l2,
+  strip_nulls path (JArr (l1 ++ JNull :: l2)) = strip_nulls path (JArr (l1 ++ l2)).
+Proof. intros path l1 l2. rewrite !strip_nulls_arr, !flat_map_app. reflexivity. Qed.
+
+Theorem nulls_shift_nothing : forall path a b,
+  strip_nulls path a = strip_nulls path b ->
+  targets path a = targets path b /\
+  extract_keys true path a = extract_keys true path b /\
+  forall rs, strip_res path (graft path a rs) = strip_res path (graft path b rs).
+Proof.
+  intros path a b H. split; [|split].
+  - rewrite <- (targets_strip_nulls path a), H. apply targets_strip_nulls.
+  - rewrite <- (extract_keys_strip_nulls path a), H. apply extract_keys_strip_nulls.
+  - intros rs. rewrite <- !graft_strip_nulls, H. reflexivity.
+Qed.
+
+(** ... and grafting puts the null back where it was *)
+Theorem graft_insert_null : forall path l1 l2 rs,
+  graft path (JArr (l1 ++ JNull :: l2)) rs =
+  match graft_list (graft path) l1 rs with
+  | Some (l1', r1) =>
+      match graft_list (graft path) l2 r1 with
+      | Some (l2', r2) => Some (JArr (l1' ++ JNull :: l2'), r2)
+      | None => None
+      end
+  | None => None
+  end /\
+  graft path (JArr (l1 ++ l2)) rs =
+  match graft_list (graft path) l1 rs with
+  | Some (l1', r1) =>
+      match graft_list (graft path) l2 r1 with
+      | Some (l2', r2) => Some (JArr (l1' ++ l2'), r2)
+      | None => None
+      end
+  | None => None
+  end.
+Proof.
+  intros path l1 l2 rs. rewrite !graft_arr, !graft_list_app. split.
+  - destruct (graft_list (graft path) l1 rs) as [[l1' r1]|]; [|reflexivity].
+    cbn [graft_list]. rewrite (graft_atom path JNull r1 eq_refl).
+    destruct (graft_list (graft path) l2 r1) as [[l2' r2]|]; reflexivity.
+  - destruct (graft_list (graft path) l1 rs) as [[l1' r1]|]; [|reflexivity].
+    destruct (graft_list (graft path) l2 r1) as [[l2' r2]|]; reflexivity.
+Qed.
+
+(** the unrepaired extractKeys (no nil check) fails on a null element at the end of the path; the end-to-end
+    refutation is Props/C06.gateway_fails_on_null_at_hop_refuted *)
+Lemma extract_keys_unrepaired_null : forall l, In JNull l -> extract_keys false [] (JArr l) = None.
+Proof.
+  intros l H. rewrite extract_keys_arr. induction l as [|e t IH]; [contradiction|].
+  destruct H as [->|H]; cbn [map concat_opt]; [reflexivity|].
+  rewrite (IH H). destruct (extract_keys false [] e); reflexivity.
+Qed.
+
+(** * 5. LISTS OF LISTS: only the depth-first, left-to-right order of the leaves of an array of arrays matters *)
+Lemma flat_map_flat_map : forall {A B C} (f : B -> list C) (g : A -> list B) l,
+  flat_map f (flat_map g l) = flat_map (fun x => flat_map f (g x)) l.
+Proof.
+  intros A B C f g l. induction l as [|x t IH]; simpl; [reflexivity|]. rewrite flat_map_app, IH. reflexivity.
+Qed.
+
+Theorem targets_leaves : forall path node, targets path node = flat_map (targets path) (leaves node).
+Proof.
+  intros path node. induction node using json_ind'; try (simpl; rewrite app_nil_r; reflexivity).
+  rewrite targets_arr. simpl. rewrite flat_map_flat_map.
+  induction H as [|e t He _ IH]; simpl; [reflexivity|]. rewrite <- He, IH. reflexivity.
+Qed.
+
+Lemma concat_opt_app : forall {A} (a b : list (option (list A))),
+  concat_opt (a ++ b) = match concat_opt a, concat_opt b with Some x, Some y => Some (x ++ y) | _, _ => None end.
+Proof.
+  intros A a b. induction a as [|[x|] t IH]; simpl.
+  - destruct (concat_opt b); reflexivity.
+  - rewrite IH. destruct (concat_opt t); [|reflexivity]. destruct (concat_opt b); [|reflexivity].
+    rewrite app_assoc. reflexivity.
+  - reflexivity.
+Qed.
+
+Theorem extract_keys_leaves : forall rep path node,
+  extract_keys rep path node = concat_opt (map (extract_keys rep path) (leaves node)).
+Proof.
+  intros rep path node.
+  induction node using json_ind';
+    try (simpl leaves; simpl map; simpl concat_opt;
+         match goal with |- ?x = _ => destruct x end; [rewrite app_nil_r|]; reflexivity).
+  rewrite extract_keys_arr. simpl leaves.
+  induction H as [|e t He _ IH]; [reflexivity|]. cbn [map flat_map]. rewrite map_app, concat_opt_app, <- He, <- IH.
+  simpl. destruct (extract_keys rep path e); reflexivity.
+Qed.
+
+Lemma leaves_same_kind : forall a b, same_kind a b -> atom a = true \/ (exists l, a = JObj l) -> leaves b = [b].
+Proof.
+  intros a b Hk H. destruct a; simpl in Hk; try (subst; reflexivity).
+  - destruct H as [H|[l0 H]]; discriminate.
+  - destruct Hk as [l' ->]. reflexivity.
+Qed.
+
+Theorem graft_leaves : forall path node rs node' rest,
+  graft path node rs = Some (node', rest) ->
+  graft_list (graft path) (leaves node) rs = Some (leaves node', rest).
+Proof.
+  intros path node. induction node using json_ind'; intros rs node' rest Hg;
+    try (pose proof (graft_kind _ _ _ _ _ Hg) as Hk; simpl in Hk; subst node'; simpl; rewrite Hg; reflexivity).
+  - rewrite graft_arr in Hg. destruct (graft_list (graft path) l rs) as [[l' rs']|] eqn:E; [|discriminate].
+    inversion Hg; subst. simpl leaves. clear Hg. revert rs l' rest E.
+    induction H as [|e t He _ IH]; intros rs l' rest E; simpl in E.
+    + inversion E; reflexivity.
+    + destruct (graft path e rs) as [[e' r1]|] eqn:E1; [|discriminate].
+      destruct (graft_list (graft path) t r1) as [[t' r2]|] eqn:E2; [|discriminate].
+      inversion E; subst. cbn [flat_map]. rewrite graft_list_app, (He _ _ _ E1), (IH _ _ _ E2). reflexivity.
+  - pose proof (graft_kind _ _ _ _ _ Hg) as [l' ->]. simpl. rewrite Hg. reflexivity.
+Qed.
+
+Corollary nesting_is_irrelevant : forall rep path a b,
+  leaves a = leaves b ->
+  targets path a = targets path b /\ extract_keys rep path a = extract_keys rep path b.
+Proof.
+  intros rep path a b H. split.
+  - rewrite (targets_leaves path a), (targets_leaves path b), H. reflexivity.
+  - rewrite (extract_keys_leaves rep path a), (extract_keys_leaves rep path b), H. reflexivity.
+Qed.
